@@ -45,6 +45,10 @@ class ZarrCollection(SyncedCollection):
 
     _backend = __name__  # type: ignore
 
+    # Mapping keys must be strings at any depth, including in mappings that
+    # are nested in (or added through) a ZarrList.
+    _validators = (require_string_key,)
+
     def __init__(self, group=None, name=None, codec=None, *args, **kwargs):
         if not ZARR:
             raise RuntimeError(
